@@ -15,6 +15,7 @@ T(id)            == St("text", id)
 P(id, e)         == [St("print", id) EXCEPT !.e = e]
 Raw(id, e)       == [St("print", id) EXCEPT !.e = e, !.f = "raw"]
 LetS(id, n, e)   == [St("let", id) EXCEPT !.n = n, !.e = e]
+Lookup(id, n, n2, g) == [St("lookup", id) EXCEPT !.n = n, !.n2 = n2, !.g = g]
 SetS(id, n, e)   == [St("set", id) EXCEPT !.n = n, !.e = e]
 IfS(id, c, b)    == [St("if", id) EXCEPT !.e = c, !.b = b]
 IfElse(id, c, b, b2) == [St("if", id) EXCEPT !.e = c, !.b = b, !.b2 = b2, !.f = "else"]
